@@ -241,6 +241,8 @@ func (m *CPU) flush(pc int32) {
 	m.executeBus.Clean()
 	m.writeBus.Clean()
 	m.ctx.Flush()
+	// Every execute unit was reset: no line fetch is in progress any more
+	m.memoryManagementUnit.pendings = nil
 }
 
 func (m *CPU) isEmpty() bool {
